@@ -4,7 +4,8 @@
 (*   fault     the driver killed (-9) / stalled (SIGSTOP) an upstream, or put an impostor on its port            *)
 (*   restored  the driver restarted it (a new process) / continued it                                            *)
 (*   probe     one CONNECT through the front proxy's connector `kind` with an echo round trip: outcome           *)
-(*             ok / fail / hang, duration, and what the connector's get_connection logged meanwhile (op)          *)
+(*             ok / fail / hang, duration, and what the connector's get_connection logged meanwhile (op);         *)
+(*             where the model demands success the driver replaces a failed attempt by one patient attempt        *)
 (*   topen     a tunnel was opened through `kind` and left open                                                   *)
 (*   tcheck    state of such a tunnel: closed (EOF / reset seen by the client) or still echoing                   *)
 (* Every record carries the driver's clock `t` (tenths of a second).  The driver never probes a connector while   *)
@@ -55,7 +56,7 @@ TProbe == /\ IsEvent("probe")
           /\ Rec[l].outcome \in {"ok", "fail", "hang"}
           /\ Attempt(Rec[l].kind, Rec[l].outcome, Rec[l].op)
           /\ late'[Rec[l].kind] <= Spare(Rec[l].kind)           \* Recovery: an upstream that has been back long enough serves
-          /\ (Rec[l].outcome = "ok" => Rec[l].ds <= 20)
+          /\ (Rec[l].outcome = "ok" => Rec[l].ds <= 200)        \* the driver gives up after 20 s at the latest
           /\ UNCHANGED topen
 TOpen == /\ IsEvent("topen")
          /\ \E u \in UpOf[Rec[l].kind] :
